@@ -213,6 +213,10 @@ func (e *JSchemaError) pointerToTheErrorCharacter() string {
 	spaces := content.SubLow(begin).CountSpacesFromLeft()
 
 	i := int(e.index) - int(begin) - spaces
+	if i < 0 {
+		// The error is inside the leading blanks, which are cut off from the quoted line.
+		i = 0
+	}
 	return strings.Repeat("-", i) + "^"
 }
 
